@@ -20,7 +20,7 @@ import (
 // It must run with GOMAXPROCS(1).
 func RunInvisible(tasks []func(), d Decider, install func(func(int)), stepLimit int) Stats {
 	n := len(tasks)
-	s := &isched{d: d, n: n, limit: stepLimit, turn: -1, inLib: make([]bool, n), finished: make([]bool, n)}
+	s := &isched{d: d, n: n, limit: stepLimit, turn: -1, inLib: make([]bool, n), finished: make([]bool, n), gids: make([]uint64, n)}
 	s.st.Panics = make([]string, n)
 	install(s.hook)
 	var wg sync.WaitGroup
@@ -30,6 +30,7 @@ func RunInvisible(tasks []func(), d Decider, install func(func(int)), stepLimit 
 		go func() {
 			defer wg.Done() // the only visible synchronisation: after the task's last access
 			s.await(int32(i))
+			s.setGid(i)
 			defer func() {
 				if r := recover(); r != nil {
 					s.notePanic(i, fmt.Sprint(r))
@@ -57,6 +58,7 @@ type isched struct {
 	msgSite  int
 	msgDone  bool
 	st       Stats
+	gids     []uint64
 }
 
 //go:norace
@@ -87,6 +89,10 @@ func (s *isched) hook(site int) {
 		panic(ErrRunaway)
 	}
 	if !s.d.Preempt(s.step, site, t) {
+		return
+	}
+	if goid() != s.gids[t] {
+		s.st.Foreign++ // a goroutine the library started itself: never parked
 		return
 	}
 	s.msgDone, s.msgSite = false, site
@@ -149,3 +155,6 @@ func (s *isched) loop() {
 	s.st.Steps = s.step
 	s.st.Hash = h
 }
+
+//go:norace
+func (s *isched) setGid(i int) { s.gids[i] = goid() }
